@@ -102,6 +102,10 @@ def thermo_values(cfgseed, fields=None):
         if name == "temp":
             t = rng.uniform(400.0, 2400.0, shape)
             t[dead] = 0.0
+            if rough:
+                # COLD cells: temperature 0 with an ordinary composition (the tool floors the temperature at 1 K and must leave
+                # the composition alone)
+                t[np.random.default_rng(gamma._tok_seed(cfgseed, ("cold", lv, b))).random(shape) < 0.05] = 0.0
             return t
         if name.startswith("Y("):
             # normalised below through a common positive weight: use a fixed positive draw and scale
@@ -138,7 +142,8 @@ def new_expected(recipe, arrs, shape, thermo, pressure=None):
     kind_, sel_ = split_recipe(recipe)
     out = [np.empty(shape) for _ in range(nout)]
     # cells without a thermodynamic state (temperature 0 or no mass at all): what the recipe gives there is not judged
-    dead = np.isclose(T, 0) | np.isclose(np.sum(Y, axis=-1), 0)
+    dead = np.isclose(np.sum(Y, axis=-1), 0)
+    T = np.where(np.isclose(T, 0), 1.0, T)          # the documented floor: a cell at 0 K is evaluated at 1 K, composition as stored
     for ijk in np.ndindex(*shape):
         if dead[ijk]:
             for o in out:
@@ -521,6 +526,14 @@ def pick_recipe(nnew, i, tier):
 
 
 def run(chk, replay):
+    _run(chk, replay)
+    if not replay:
+        # the working directory changes between runs on plotfiles typed under a relative name (PoolEnv.tla)
+        from harness import poolenv
+        poolenv.tool_phase(chk, "chef")
+
+
+def _run(chk, replay):
     chk.rule = ("behaviours of Chef.tla emitted by TLC (layout x #new components x kept list x serial/parallel x completion "
                 "order), each replayed with a recipe of that arity (user file / callable / solution-array / built-in HRR, ENT, "
                 "SRi, SDi, RRi); signature = (levels, #new, kept class, serial, per-level layout class, finish class, recipe); "
